@@ -1,0 +1,42 @@
+//go:build verif
+// +build verif
+
+package leveldb
+
+import (
+	"github.com/syndtr/goleveldb/leveldb/memdb"
+	"github.com/syndtr/goleveldb/leveldb/opt"
+)
+
+// Verification exports for the byte-level read-path correspondence of property C01 (build tag verif only;
+// add-only).
+
+// VerifMemDumps returns copies of the internal arrays of the live and of the frozen write buffer (nil if
+// absent), taken the way DB.get takes them (getMems).
+func VerifMemDumps(db *DB) (live, frozen *memdb.VerifDump) {
+	em, fm := db.getMems()
+	if em != nil {
+		d := em.DB.VerifDump()
+		live = &d
+		em.decref()
+	}
+	if fm != nil {
+		d := fm.DB.VerifDump()
+		frozen = &d
+		fm.decref()
+	}
+	return
+}
+
+// VerifReadSetup reports the settings of the session that decide how a table file is read: whether block
+// checksums are verified (StrictBlockChecksum), the name of the configured filter ("" = none) and the
+// restart interval tables are written with.
+func VerifReadSetup(db *DB) (verify bool, filterName string, restartInterval int) {
+	o := db.s.o
+	verify = o.GetStrict(opt.StrictBlockChecksum)
+	if f := o.GetFilter(); f != nil {
+		filterName = f.Name()
+	}
+	restartInterval = o.GetBlockRestartInterval()
+	return
+}
